@@ -50,7 +50,9 @@ func String(t *rapid.T) string {
 // now and then very long (far beyond any fixed padding or indentation table) or full of bytes that are
 // escaped to six bytes each.
 func Key(t *rapid.T) string {
-	switch sim.Weighted(t, "keykind", 20, 1, 1) {
+	switch sim.Weighted(t, "keykind", 20, 1, 1, 2) {
+	case 3:
+		return String(t) // whatever a string value may hold, a key may hold
 	case 1:
 		return "long_key_" + string(make([]byte, 0)) + repeatTo("abcdefghij", 120+sim.Intn(t, 300, "keylen"))
 	case 2:
